@@ -88,7 +88,22 @@ def run(tier, replay):
             c["id"] = i + 1
         cj, oj = os.path.join(wd, "cases.json"), os.path.join(wd, "out.json")
         json.dump(cases, open(cj, "w"))
+        # beside the replay: a connection that stays silent for 12 s (longer than a handshake timeout a server may have)
+        import threading
+        so = os.path.join(wd, "silent.json")
+        silent = {}
+        def run_silent():
+            os.makedirs(os.path.join(wd, "silent"), exist_ok=True)
+            silent["rc"], silent["out"] = vlib.go_test(os.path.join(wd, "silent"), "./internal/server", OV, "TestC14Silent",
+                                                       env={"VERIF_OUT": so, "VERIF_SILENT_S": 12 if tier == "quick" else 40}, timeout=600)
+        th = threading.Thread(target=run_silent)
+        th.start()
         rc, out = vlib.go_test(wd, "./internal/server", OV, "TestC14Replay", env={"VERIF_CASES": cj, "VERIF_OUT": oj}, timeout=1500)
+        th.join()
+        if silent.get("rc") != 0 or not os.path.exists(so):
+            raise vlib.Inconclusive("silent connection harness failed\n" + str(silent.get("out"))[-2000:])
+        for b in json.load(open(so))["bad"] or []:
+            V.violation("silent connection: " + b, {"bad": b})
         if rc != 0 or not os.path.exists(oj):
             raise vlib.Inconclusive("harness failed\n" + out[-2500:])
         results = json.load(open(oj))
